@@ -69,6 +69,30 @@ type Outcome struct {
 	Noops      int              `json:"noops"`
 	// Infra is set when the harness itself could not run (never a violation).
 	Infra string `json:"infra,omitempty"`
+	// KnownSoft counts violations that matched a listed known finding and did not end the run.
+	KnownSoft map[string]int `json:"known_soft,omitempty"`
+}
+
+// KnownKeys is the set of "prop|class|sig" keys of status=known findings (set by the runner
+// before any execution; the same in generate, replay and minimise mode).
+var KnownKeys = map[string]string{}
+
+// FailKnownOrStop records a violation. When it is a listed known finding (a genuine defect of
+// the code under test that was recorded rather than repaired) the run goes on, so that the
+// finding does not hide everything behind it; it returns true in that case. Anything else is an
+// ordinary violation (returns false, the run should stop).
+func (x *Ctx) FailKnownOrStop(prop, class, sig, detail string, step int) bool {
+	key := prop + "|" + class + "|" + sig
+	if _, ok := KnownKeys[key]; ok {
+		if x.Out.KnownSoft == nil {
+			x.Out.KnownSoft = map[string]int{}
+		}
+		x.Out.KnownSoft[key]++
+		x.Logf("KNOWN %s", key)
+		return true
+	}
+	x.Fail(prop, class, sig, detail, step)
+	return false
 }
 
 // Ctx is handed to a world for one execution. In generate mode Rng is non-nil
